@@ -292,6 +292,20 @@ pub fn cases<T: KS + Send + Sync>(out: &mut Out, rng0: &mut Rng, tier: &Tier) {
                 continue;
             }
         };
+        // one graph in three additionally goes through compress_graph (no censoring): the finished graph of the sharded /
+        // re-compressed pipelines - edges, symmetry, observed adjacencies and walks must hold for it just the same
+        let base = if rng.chance(1, 3) {
+            let sp2 = PaySpec { mode };
+            match guard(std::panic::AssertUnwindSafe(move || compress_graph(stranded, &sp2, base.finish(), None).base)) {
+                Some(x) => x,
+                None => {
+                    out.case("chk.c03.graph_ok", l(vec![]), V::Bot);
+                    continue;
+                }
+            }
+        } else {
+            base
+        };
         // same nodes, payload = (score, solid): scores are small integers (exact in f32), mostly positive
         let mut b3: BaseGraph<T, D3> = BaseGraph::new(stranded);
         let flat = rng.chance(1, 6);
